@@ -24,7 +24,7 @@ inline int cfg_from_name(const std::string& s) {
 inline bool cfg_is_u64(int c) { return c < 3; }
 inline bool cfg_is_olc(int c) { return c == OLC_U64 || c == OLC_KV; }
 
-enum op_kind { INS, REM, GET, EMPTY, CLEAR, QUIESCE, SCAN, SCAN_FROM, SCAN_RANGE, RELOAD };
+enum op_kind { INS, REM, GET, EMPTY, CLEAR, QUIESCE, SCAN, SCAN_FROM, SCAN_RANGE, RELOAD, INS_LONGVAL, INS_LONGKEY };
 
 struct op {
   op_kind kind = GET;
@@ -53,6 +53,8 @@ inline std::string op_to_text(const op& o) {
     case CLEAR: s << "clear"; break;
     case QUIESCE: s << "q"; break;
     case RELOAD: s << "reload"; break;
+    case INS_LONGVAL: s << "inslongval " << to_hex(o.key); break;
+    case INS_LONGKEY: s << "inslongkey " << to_hex(o.key); break;
     case SCAN: s << "scan " << (o.fwd ? 1 : 0) << ' ' << o.halt; break;
     case SCAN_FROM:
       s << "scanfrom " << to_hex(o.key) << ' ' << (o.fwd ? 1 : 0) << ' ' << o.halt
@@ -103,6 +105,12 @@ inline bool case_from_text(const std::string& text, scase& c) {
       o.kind = QUIESCE;
     } else if (t[0] == "reload") {
       o.kind = RELOAD;
+    } else if (t[0] == "inslongval" && t.size() >= 2) {
+      o.kind = INS_LONGVAL;
+      o.key = from_hex(t[1]);
+    } else if (t[0] == "inslongkey" && t.size() >= 2) {
+      o.kind = INS_LONGKEY;
+      o.key = from_hex(t[1]);
     } else if (t[0] == "scan" && t.size() >= 3) {
       o.kind = SCAN;
       o.fwd = t[1] == "1";
@@ -138,6 +146,7 @@ struct run_opts {
   bool check_c01 = true;   // point-operation results, held views
   bool check_c02 = true;   // scan output
   bool check_c10 = true;   // shape / statistics / memory accounting
+  bool check_c08 = false;  // fault enumeration around every mutating operation
   bool k1_exclusion = true;
   bool collect = false;    // collect class histograms
 };
@@ -152,6 +161,8 @@ struct verdict {
   unsigned nontrivial_scans = 0; // scans that are non-trivial per C02's rule
   unsigned k1_excluded = 0;
   bool revisited_keyset = false;
+  unsigned faults = 0;            // injected faults verified
+  unsigned faults_k2plus = 0;     // ... that failed the 2nd or a later allocation
 };
 
 }  // namespace verif::seq
